@@ -63,7 +63,17 @@ class Info:
     w: float
 
 
+@dataclass
+class Vertex:
+    "annotations given as strings (forward references / from __future__ import annotations)"
+    z: "float"
+    ntrk: "int"
+    lead: "Jet"
+    good: "bool"
+
+
 class Evt:
+    def vtx(self) -> Vertex: ...  # noqa
     def met(self) -> float: ...  # noqa
     def n(self) -> int: ...  # noqa
     def ok(self) -> bool: ...  # noqa
@@ -125,6 +135,10 @@ TABLE = [
     ("e.box().get()", Jet), ("e.box().get().pt()", float), ("e.box().count()", int),
     ("e.info().run", int), ("e.info().w", float), ("e.info().jets", Iterable[Jet]), ("e.info().jets.First().pt()", float), ("e.info()['run']", int),
     ("{'a': e.n(), 'b': e.Jets()}.a", int), ("{'a': e.n(), 'b': e.Jets()}['b']", Iterable[Jet]), ("{'a': e.n(), 'b': e.Jets()}.b.First().pt()", float),
+    # dictionaries with the same keys but other value types, in one process and in one query
+    ("{'a': e.n()}.a", int), ("{'a': e.met()}.a", float), ("{'a': e.Jets()}.a", Iterable[Jet]), ("{'a': e.lead()}['a'].pt()", float),
+    ("{'a': e.met(), 'k': {'a': e.n()}.a}.a", float), ("{'a': e.n(), 'k': {'a': e.met()}.a}.k", float),
+    ("e.vtx().z", float), ("e.vtx().ntrk + 1", int), ("e.vtx().lead.pt()", float), ("e.vtx().lead.Tracks().Count()", int), ("e.vtx()['good']", bool),
     ("(e.n(), e.met())[1]", float), ("(e.n(), e.Jets())[1].First()", Jet),
     ("e.met() > 1", bool), ("e.n() == e.n()", bool), ("e.ok() and e.met() > 1", bool), ("e.ok() or e.lead().tagged()", bool), ("not e.ok()", bool),
     ("e.met() > 1 > e.n()", bool), ("-e.n()", int), ("-e.met()", float), ("abs(e.met())", float),
@@ -218,6 +232,11 @@ STREAM = [
     ("Select", "lambda d: d.jets.First().eta()", float, ("Select", "lambda e: e.info()")),
     ("Select", "lambda d: d.a + 1", int, ("Select", "lambda e: {'a': e.n(), 'b': e.met()}")),
     ("Select", "lambda d: d['b'] + d.a", float, ("Select", "lambda e: {'a': e.n(), 'b': e.met()}")),
+    ("Select", "lambda d: d.a", float, ("Select", "lambda e: {'a': e.met(), 'b': e.n()}")),
+    ("Select", "lambda d: d.a.First()", Jet, ("Select", "lambda e: {'a': e.Jets(), 'b': e.n()}")),
+    ("Where", "lambda d: d.a", "ValueError", ("Select", "lambda e: {'a': e.met(), 'b': e.n()}")),
+    ("Where", "lambda d: d.good", Vertex, ("Select", "lambda e: e.vtx()")),
+    ("Select", "lambda d: {'a': d.a / 2}", None, ("Select", "lambda e: {'a': e.n()}")),
 ]
 NSTREAM = len(STREAM)
 
@@ -252,6 +271,11 @@ def c08c(code: int) -> str:
         return "%s(%s) raised %s: %s" % (op, lam, type(e).__name__, e)
     if want == "ValueError":
         return "%s(%s): a non-boolean filter was accepted" % (op, lam)
+    if want is None:
+        # dictionary item: compare the field types of the stand-in dataclass
+        from typing import get_type_hints
+        ft = get_type_hints(st.item_type)
+        return "" if ft == {"a": float} else "%s(%s): dictionary field types %r" % (op, lam, ft)
     if st.item_type != want:
         return "%s(%s): item type %r, declared %r" % (op, lam, st.item_type, want)
     return ""
